@@ -61,13 +61,14 @@ func genRecords(t *rapid.T, label string, max int) [][]byte {
 func TestC05(t *testing.T) {
 	rec := ev.Get("C05")
 	rec.Rule("syntactically valid ClientHellos without an acceptable ECH: no ECH / GREASE ECH (random or matching id and suite) / authentic ECH to a key the server lacks / ECH present but TLS 1.3 not offered / no extension block / empty block; sizes to 16 KiB; key sets none, unrelated, same-id; followed by 0..5 arbitrary records each way. Oracle: bytes read from Conn == bytes sent (record version of the hello excepted), bytes written reach the client unchanged, ServerName/ALPN == harness decoder == crypto/tls ClientHelloInfo. distinct = hello hash; non-trivial = unknown extension type, GREASE ECH or no TLS 1.3")
-	rec.Mandatory("kind:no_ech", "kind:grease", "kind:grease_matching_id", "kind:foreign_key", "kind:no_tls13_with_ech", "kind:no_ext_block", "kind:empty_ext_block", "size_ge12k", "tls10_only", "keys:none", "keys:unrelated", "keys:same_id", "tls_oracle_used")
+	rec.Mandatory("odd_legacy_version", "kind:no_ech", "kind:grease", "kind:grease_matching_id", "kind:foreign_key", "kind:no_tls13_with_ech", "kind:no_ext_block", "kind:empty_ext_block", "size_ge12k", "tls10_only", "keys:none", "keys:unrelated", "keys:same_id", "tls_oracle_used")
 	rapid.Check(t, func(t *rapid.T) {
 		pub := hello.GenName(t, "public_name", 253)
 		key := drawKey(t, "key", -1, pub)
 		kind := []string{"no_ech", "grease", "grease_matching_id", "foreign_key", "no_tls13_with_ech", "no_ext_block", "empty_ext_block"}[uniform(t, "kind", 7)]
 		big := rapid.IntRange(0, 7).Draw(t, "big") == 0
 		var h *hello.Hello
+		var cl0 []string
 		suite := key.Suites[0]
 		grease := func(id uint8, s hello.Suite) []byte {
 			return hello.ECHOuterExt(s.KDF, s.AEAD, id, hello.GenBytes(t, "g_enc", 32), hello.GenBytes(t, "g_payload", rapid.IntRange(17, 400).Draw(t, "g_plen")))
@@ -107,6 +108,11 @@ func TestC05(t *testing.T) {
 		case "empty_ext_block":
 			h = hello.GenPlain(t, "h", hello.PlainOpts{NoExtKind: 2})
 		}
+		if kind != "foreign_key" && kind != "no_tls13_with_ech" && rapid.IntRange(0, 7).Draw(t, "odd_version") == 0 {
+			// legacy_version is just two bytes for a pass-through: unusual values must survive too
+			h.Version = rapid.SampledFrom([]uint16{0x0304, 0x0300, 0x7f1c, 0xfefd, 0x0a0a, 0xffff}).Draw(t, "odd_version_v")
+			cl0 = append(cl0, "odd_legacy_version")
+		}
 		msg := h.Message()
 		if len(msg) > 16384 {
 			t.Skip("too big")
@@ -127,7 +133,7 @@ func TestC05(t *testing.T) {
 			stream = append(stream, r...)
 		}
 		sum := sha256.Sum256(msg)
-		cl := []string{"kind:" + kind, "keys:" + keysKind}
+		cl := append([]string{"kind:" + kind, "keys:" + keysKind}, cl0...)
 		if len(msg) >= 12000 {
 			cl = append(cl, "size_ge12k")
 		}
